@@ -76,7 +76,10 @@ PROPS = {
                 extra_assumptions=[TW_NOTE]),
     "C10": spec([reg("C10", 36000, 45, 2000000, 700), tw(6000, 20, 300000, 150)],
                 extra_assumptions=[TW_NOTE]),
-    "C14": spec([reg("C14", 40000, 45, 2000000, 780)]),
+    "C14": spec([reg("C14", 40000, 45, 2000000, 780),
+                 reg("tw2", 4000, 25, 200000, 200)],
+                extra_assumptions=[TW_NOTE,
+                    "engine tw2: two typed-world policies go through interleaved histories in one process, then each history alone; reports, outcome tables and oracle verdicts must be identical; definitions that are policy-independent functions are shared by both policies"]),
     "C15": spec([reg("C15", 60000, 45, 3000000, 780)],
                 level="fault_enumeration"),
     "C16": {
